@@ -46,6 +46,12 @@ class Renderer:
             return self.L.choice(['  ', '\t', ' \t ', '    ', '\t\t'])
         return ' '
 
+    def cws(self):
+        """white space in front of a trailing comment: none at all is legal too (`54579# mjd`)"""
+        if self.coin('tight_trailing_comment', 0.25):
+            return ''
+        return self.ws()
+
     def comment(self, hostile=False):
         body = ''.join(self.L.choice('abc XYZ 019 _-+.:,/()=!?\'') for _ in range(self.L.randint(0, 20)))
         if hostile and self.coin('hostile_comment', 0.5):
@@ -119,7 +125,7 @@ class Renderer:
             if v and self.coin('continuation', 0.25):
                 line = k + ' \\' + L.choice(['', ' ', '\t']) + '\n' + self.ws() + v
             if self.coin('trailing_comment', 0.3):
-                line += self.ws() + self.comment(True)
+                line += self.cws() + self.comment(True)
             elif self.coin('trailing_blanks', 0.2):
                 line += L.choice([' ', '\t', '  '])
             out.append(line)
@@ -159,7 +165,7 @@ class Renderer:
                     out.append(self.ws() + '# ' + ''.join(L.choice('abc XYZ,.') for _ in range(L.randint(0, 12))))
             tail = '}' + self.ws() + tn + ';'
             if self.coin('trailing_comment', 0.2):
-                tail += self.ws() + self.comment(True)
+                tail += self.cws() + self.comment(True)
             out.append(tail)
             junk()
         queues = {ti: list(t['rows']) for ti, t in enumerate(doc['tables'])}
@@ -204,7 +210,7 @@ class Renderer:
                 else:
                     line += self.ws() + tk
             if self.coin('trailing_comment', 0.3):
-                line += self.ws() + self.comment(True)
+                line += self.cws() + self.comment(True)
             elif self.coin('trailing_blanks', 0.2):
                 line += L.choice([' ', '\t', '   '])
             out.append(line)
@@ -271,7 +277,7 @@ class C02(Check):
         enums = {}
         if rng.random() < 0.5:
             for _ in range(rng.randint(1, 2)):
-                en = M.ident(rng, 3, 6, suffix=False).upper() + '_T'
+                en = M.ident(rng, 3, 6, suffix=False).upper() + rng.choice(['_T', '_T', '_T2', '2', '_2010', '_V1', ''])
                 if en in names:
                     continue
                 labs = []
@@ -365,7 +371,7 @@ class C02(Check):
             pairs.append([k, v])
         return {'pairs': pairs, 'enums': enums, 'tables': tables}
 
-    FREEDOMS = ['blank_runs', 'hostile_comment', 'number_spelling', 'continuation', 'trailing_comment', 'trailing_blanks',
+    FREEDOMS = ['tight_trailing_comment', 'blank_runs', 'hostile_comment', 'number_spelling', 'continuation', 'trailing_comment', 'trailing_blanks',
                 'typedef_name_case', 'one_line_enum', 'legacy_brackets', 'typedef_member_comment',
                 'comment_line_in_typedef', 'interleaved_tables', 'row_name_case', 'padded_arrays', 'leading_blanks',
                 'crlf', 'no_final_newline', 'blank_and_comment_lines', 'brace_strings']
@@ -398,7 +404,7 @@ class C02(Check):
             only = None
             if cls == 'single_freedom':
                 only = {self.FREEDOMS[(i + k) % len(self.FREEDOMS)]}
-                if 'hostile_comment' in only:
+                if 'hostile_comment' in only or 'tight_trailing_comment' in only:
                     only.add('trailing_comment')
             R = Renderer(seed, only)
             text = R.render(doc)
